@@ -1,8 +1,10 @@
 #!/venv/bin/python
 """C11 monitor driver: one real PROCESS contending on the real flock-based radicale.pathutils.RwLock.
 
-usage: c11_flock_driver.py LOCKFILE STATEFILE GUARDFILE NCYCLES SEED NTHREADS
-Every process owns one RwLock object shared by NTHREADS threads.  Inside each critical section the holder
+usage: c11_flock_driver.py LOCKFILE|STORAGE-OPTIONS-JSON STATEFILE GUARDFILE NCYCLES SEED NTHREADS
+Every process owns one RwLock object shared by NTHREADS threads: RwLock(LOCKFILE), or -- when the first argument is a
+JSON object -- the lock of the real Storage built by radicale.storage.load from these [storage] options, entered
+through Storage.acquire_lock (one server instance of a deployment).  Inside each critical section the holder
 registers itself in STATEFILE ("<readers> <writers>", protected by a separate flock on GUARDFILE) and checks that
 nobody incompatible is registered, and that RwLock.locked reports the mode it holds.  Prints a JSON summary.
 """
@@ -19,7 +21,21 @@ def main():
     lockfile, statefile, guardfile = sys.argv[1:4]
     ncycles, seed, nthreads = int(sys.argv[4]), int(sys.argv[5]), int(sys.argv[6])
     from radicale import pathutils
-    lock = pathutils.RwLock(lockfile)
+    if lockfile.startswith("{"):
+        import logging
+        from radicale import config, storage
+        logging.getLogger("radicale").setLevel(logging.CRITICAL)
+        conf = config.load()
+        conf.update({"storage": json.loads(lockfile)}, "c11", privileged=True)
+        st = storage.load(conf)
+
+        class StorageLock:
+            def acquire(self, mode):
+                return st.acquire_lock(mode, "user")
+            locked = property(lambda self: st._lock.locked)
+        lock = StorageLock()
+    else:
+        lock = pathutils.RwLock(lockfile)
     res = dict(overlaps=[], errors=[], cycles=0, r=0, w=0, locked_mismatch=[])
     res_lock = threading.Lock()
 
